@@ -13,7 +13,7 @@ The frame record and the instruction syntax are shared with the specification (`
 
 The model follows the repaired code of fixes/C07-1.patch (`FuncFrame::init`: minimum dynamic alignment
 = 2 x natural alignment) and fixes/C07-2.patch (AArch64 vector saves use the register view whose size
-is the declared save size).
+is the declared save size) and fixes/C07-3.patch, fixes/C07-4.patch.
 -/
 import AsmjitVerif.Spec.FrameSpec
 namespace AsmjitVerif.Frame
@@ -255,12 +255,13 @@ def x86Epilog (f : Frame) : List Instr :=
 /-- one `RegPair`: (first id, second id or none, offset) -/
 abbrev Pair := Nat × Option Nat × Nat
 
-/-- pairs of the registers `ids` starting at `offset` (each pair takes `2 * slot`); returns the pairs and the next offset -/
-def pairUp (slot : Nat) : List Nat → Nat → List Pair × Nat
+/-- pairs of the registers `ids` starting at `offset` (a pair takes `2 * slot`, a trailing single register
+`align_up(slot, align)` - fixes/C07-4.patch, the pinned code took `2 * slot`); returns the pairs and the next offset -/
+def pairUp (slot align : Nat) : List Nat → Nat → List Pair × Nat
   | [], off => ([], off)
-  | [r], off => ([(r, none, u16 off)], off + slot * 2)
+  | [r], off => ([(r, none, u16 off)], off + alignUp slot align)
   | r1 :: r2 :: rest, off =>
-    let (ps, o) := pairUp slot rest (off + slot * 2)
+    let (ps, o) := pairUp slot align rest (off + slot * 2)
     ((r1, some r2, u16 off) :: ps, o)
 
 structure PEI where
@@ -274,8 +275,8 @@ def peiInit (f : Frame) : PEI :=
   let (fpPair, off0, saved0) :=
     if f.hasFP then ([((29 : Nat), some (30 : Nat), (0 : Nat))], slot0 * 2, clearBit (clearBit saved0 29) 30)
     else ([], 0, saved0)
-  let (gpPairs, off1) := pairUp slot0 (bitsAsc saved0 32) off0
-  let (vecPairs, off2) := pairUp (f.srSize 1) (bitsAsc (f.saved 1) 32) off1
+  let (gpPairs, off1) := pairUp slot0 (f.srAlign 0) (bitsAsc saved0 32) off0
+  let (vecPairs, off2) := pairUp (f.srSize 1) (f.srAlign 1) (bitsAsc (f.saved 1) 32) off1
   { gp := fpPair ++ gpPairs, vec := vecPairs, total := off2 }
 
 /-- size of the register view used for group `g` (fixes/C07-2.patch: the vector view follows the
